@@ -37,6 +37,9 @@ def glyph_bytes(g):
         for i, comp in enumerate(comps):
             gid, dx, dy = comp[:3]
             flags = 0x0001 | 0x0002  # ARGS_ARE_WORDS, ARGS_ARE_XY
+            small = g.get("byte_args") and -128 <= dx <= 127 and -128 <= dy <= 127
+            if small:
+                flags = 0x0002       # the two offsets as signed bytes
             if i < len(comps) - 1:
                 flags |= 0x0020
             tail = b""
@@ -47,7 +50,7 @@ def glyph_bytes(g):
                 else:
                     flags |= 0x0040  # WE_HAVE_AN_X_AND_Y_SCALE
                     tail = struct.pack(">hh", comp[3], comp[4])
-            out += struct.pack(">HHhh", flags, gid, dx, dy) + tail
+            out += (struct.pack(">HHbb", flags, gid, dx, dy) if small else struct.pack(">HHhh", flags, gid, dx, dy)) + tail
         return out
     contours = g.get("contours") or []
     if not contours:
